@@ -591,6 +591,41 @@ def _props_strategy(draw, cfg, depth, gen, patterns=(), force=None):
     return props
 
 
+@st.composite
+def inheritance_family(draw):
+    """Base model + a subclass that ADDS something only it enforces (a required property, additionalProperties false,
+    minProperties), both used in one tree - the base first. Whatever a class works out on first use (validators, property
+    lookups) and keeps on the class object is found by the subclass through attribute lookup unless it is kept per class.
+    -> (recipe, values): the values separate base and subclass behaviour."""
+    base = {"id": 2, "kind": "Object", "name": "Account", "kw": {}, "props": [
+        {"name": "a", "source": draw(st.sampled_from([None, "a-b"])), "required": False,
+         "element": {"id": 3, "kind": "String", "kw": {}}}]}
+    extra = draw(st.sampled_from(["required-prop", "required-prop", "additional-false", "min-properties", "number-prop"]))
+    child = {"id": 4, "kind": "Object", "name": "User", "kw": {}, "base": {"ref": 2}, "props": []}
+    if extra == "required-prop":
+        child["props"] = [{"name": "b", "source": None, "required": True, "element": {"id": 5, "kind": "Integer", "kw": {}}}]
+    elif extra == "number-prop":
+        child["props"] = [{"name": "b", "source": draw(st.sampled_from([None, "class"])), "required": False,
+                           "element": {"id": 5, "kind": "Number", "kw": {"default": 1}}}]
+    elif extra == "additional-false":
+        child["sub"] = {"additionalProperties": False}
+    else:
+        child["kw"] = {"minProperties": 2}
+    a = base["props"][0]["source"] or "a"
+    b = (child["props"][0]["source"] or "b") if child["props"] else "b"
+    root = {"id": 1, "kind": draw(st.sampled_from(["Element", "Object"])), "kw": {}, "props": [
+        {"name": "base", "source": None, "required": False, "element": base},
+        {"name": "child", "source": None, "required": False, "element": child},
+        {"name": "many", "source": None, "required": False, "element":
+            {"id": 6, "kind": "Array", "kw": {}, "sub": {"items": {"ref": 4}}}}]}
+    if root["kind"] == "Object":
+        root["name"] = "Holder"
+    values = [{"base": {a: "x"}}, {"base": {a: "x"}, "child": {a: "x"}}, {"child": {a: "x", b: 1}},
+              {"child": {a: "x", b: 2, "zz": 1}}, {"base": {a: "x", "zz": 1}, "child": {a: "y", b: 3}},
+              {"many": [{a: "x"}, {a: "x", b: 1}]}, {"child": {}}, {"base": {}, "child": {b: 1}}]
+    return root, values
+
+
 def twin(recipe, gen):
     """Structurally identical copy with fresh ids and fresh class names (None if names run out)."""
     new = copy.deepcopy(repair_refs(copy.deepcopy(recipe), index(recipe)))
